@@ -7,6 +7,7 @@ static struct Node *mknode(void) {
   n->m_children.keys = malloc(g_rcap * sizeof(size_t)); n->m_children.kids = malloc(g_rcap * sizeof(struct Node));
   n->m_children.psum = malloc(g_rcap * sizeof(size_t)); n->m_children.pmax = malloc(g_rcap * sizeof(size_t)); n->m_children.pany = malloc(g_rcap * sizeof(_Bool));
   __CPROVER_assume(n->m_children.keys != 0 && n->m_children.kids != 0 && n->m_children.psum != 0 && n->m_children.pmax != 0 && n->m_children.pany != 0);
+  g_scr = malloc(sizeof(struct Node)); __CPROVER_assume(g_scr != 0);
   if (nondet_bool()) n->m_subject.p = 0;
   else { n->m_subject.p = malloc(sizeof(struct Subj0)); __CPROVER_assume(n->m_subject.p != 0); }
   return n;
@@ -31,3 +32,11 @@ void h_RKey_getLevel(void) { struct RLV lv = mkview(); int i; RKey__getLevel(lv.
 void h_RKey_getLevelCount(void) { struct RLV lv = mkview(); RKey__getLevelCount(lv.m_key); CANARY; }
 void h_Node_exists(void) { struct Node *n = mknode(); struct RLV lv = mkview(); Node__exists(n, lv); CANARY; }
 void h_Node_depth(void) { struct Node *n = mknode(); Node__depth(n); CANARY; }
+void h_Node_isEmpty(void) { struct Node *n = mknode(); Node__isEmpty(n); CANARY; }
+#ifdef SHRINK_CASE
+static void shrink_case(void) { struct Node *n = mknode(); struct RLV lv = mkview(); g_case = SHRINK_CASE; Node__shrink(n, lv); CANARY; }
+void h_Node_shrink_any(void) { shrink_case(); }
+void h_Node_shrink_w(void) { shrink_case(); }
+void h_Node_shrink_l(void) { shrink_case(); }
+void h_Node_shrink_first(void) { shrink_case(); }
+#endif
